@@ -107,27 +107,68 @@ def window_mask(F, S):
 
 
 def window_initialised(F, S):
-    fn = F.fn(HL + "::InitializeDecompressBuffer", nparams=0)
-    ms = [nd for nd in fn.nodes if nd["k"] in CALLS and nd.get("fname") == "memset"]
+    """Every byte of the window is set to the format's fill byte (space) on every path through the constructor: by
+    memset / std::fill / std::fill_n over the whole array, in the constructor or in a helper of the class it calls."""
+    from ..through import on_every_returning_path, closure
     rec = F.record(HL)
     ext = [f for f in rec["fields"] if f["name"] == "m_DecompressBuffer"][0]["array_len"]
+    win = ("mem", ("this",), "m_DecompressBuffer")
+    SPACE = ("const", 32)
+
+    def whole_fill(f, nd):
+        """nd fills all `ext` bytes of the window with spaces; returns a description or None (a partial / other fill gives False)."""
+        a = [f.term(x) for x in nd.get("args", [])]
+        fq = nd.get("fq") or nd.get("fname") or ""
+        first = lambda t: t == win or t == ("un", "&", ("idx", win, ("const", 0))) or (t[0] == "call" and t[1].split("::")[-1] == "begin" and (t[3] == (win,) or t[2] == win))
+        last = lambda t: (t[0] == "call" and t[1].split("::")[-1] == "end" and (t[3] == (win,) or t[2] == win)) or t == ("op", "+", win, ("const", ext))
+        if fq.endswith("memset") and len(a) == 3 and first(a[0]):
+            return "memset(window, ' ', %d)" % ext if a[1] == SPACE and a[2] == ("const", ext) else False
+        if fq == "std::fill" and len(a) == 3 and first(a[0]):
+            return "std::fill over the whole window" if last(a[1]) and a[2] == SPACE else False
+        if fq == "std::fill_n" and len(a) == 3 and first(a[0]):
+            return "std::fill_n(window, %d, ' ')" % ext if a[1] == ("const", ext) and a[2] == SPACE else False
+        return None
+
+    ctor = [f for f in F.fns(HL + "::HuffLZ") if not f.d.get("copy_ctor") and not f.d.get("implicit")]
+    if len(ctor) != 1:
+        raise AnalysisBroken("HuffLZ: expected one user-written constructor")
+    c0 = ctor[0]
     out = []
+    fills = []      # (function, node, description)
+    partial = []
+    for f in closure(F, c0, depth=2):
+        for nd in f.nodes:
+            if nd["k"] in CALLS:
+                w = whole_fill(f, nd)
+                if w:
+                    fills.append((f, nd, w))
+                elif w is False:
+                    partial.append((f, nd))
     inst = HL + "::InitializeDecompressBuffer#whole-window"
     req = "all %d window bytes are set to the format's fill byte (space) before decoding starts" % ext
-    if len(ms) == 1 and fn.term(ms[0]["args"][0]) == ("mem", ("this",), "m_DecompressBuffer") and fn.term(ms[0]["args"][2]) == ("const", ext) \
-            and fn.term(ms[0]["args"][1]) == ("const", 32):
-        out.append(ok("R-INIT", inst, fn.loc(ms[0]["id"]), fn.qn, req, "memset(window, ' ', %d)" % ext))
+    if fills and not partial:
+        f, nd, w = fills[0]
+        out.append(ok("R-INIT", inst, f.loc(nd["id"]), f.qn, req, w))
+    elif partial:
+        f, nd = partial[0]
+        a = [f.term(x) for x in nd.get("args", [])]
+        out.append(bad("R-INIT", inst, f.loc(nd["id"]), f.qn, req, "memset length %s / fill %s" % (fmt_term(a[2]) if len(a) > 2 else "?", fmt_term(a[1]) if len(a) > 1 else "?")
+                       if (nd.get("fname") or "").endswith("memset") else "%s(%s) does not cover the whole window with spaces" % (nd.get("fq") or nd.get("fname"), ", ".join(fmt_term(x) for x in a))))
     else:
-        out.append(bad("R-INIT", inst, fn.loc(fn.body), fn.qn, req,
-                       "memset length %s / fill %s" % (fmt_term(fn.term(ms[0]["args"][2])) if ms else "?", fmt_term(fn.term(ms[0]["args"][1])) if ms else "?")))
-    ctor = [f for f in F.fns(HL + "::HuffLZ") if not f.d.get("copy_ctor") and not f.d.get("implicit")]
-    eng = Engine(F, S)
-    ex = eng.analyze(ctor[0], frozenset()) or frozenset()
+        out.append(bad("R-INIT", inst, c0.loc(c0.body), c0.qn, req, "memset length ? / fill ?"))
+    # on every path through the constructor
     inst = HL + "#ctor-initialises-window"
-    if ("ev", "called", HL + "::InitializeDecompressBuffer") in ex:
-        out.append(ok("R-MUSTCALL", inst, ctor[0].loc(ctor[0].body), ctor[0].qn, "the constructor fills the window", "InitializeDecompressBuffer on every path"))
+    ids = [nd["id"] for (f, nd, w) in fills if f.key == c0.key]
+    for nd in c0.nodes:
+        if nd["k"] in CALLS:
+            for cal in F.callees(nd):
+                hs = [x for (f, x, w) in fills if f.key == cal.key]
+                if hs and on_every_returning_path(cal, [x["id"] for x in hs]):
+                    ids.append(nd["id"])
+    if ids and on_every_returning_path(c0, ids):
+        out.append(ok("R-MUSTCALL", inst, c0.loc(c0.body), c0.qn, "the constructor fills the window", "the fill is on every path through the constructor"))
     else:
-        out.append(bad("R-MUSTCALL", inst, ctor[0].loc(ctor[0].body), ctor[0].qn, "the constructor fills the window", "not called"))
+        out.append(bad("R-MUSTCALL", inst, c0.loc(c0.body), c0.qn, "the constructor fills the window", "not called"))
     return out
 
 
@@ -182,10 +223,147 @@ def fill_threshold(F, S):
     return out
 
 
+def _eval_term(t, env):
+    """Integer value of a closed arithmetic term (unsigned 32-bit semantics), env: term -> int. None if not closed."""
+    if t in env:
+        return env[t]
+    if t[0] == "const":
+        return t[1]
+    if t[0] == "op" and t[1] in ("+", "-", ">>", "<<", "&", "|", "*"):
+        a, b = _eval_term(t[2], env), _eval_term(t[3], env)
+        if a is None or b is None:
+            return None
+        v = {"+": a + b, "-": a - b, ">>": a >> b if b >= 0 else None, "<<": a << b if 0 <= b < 64 else None,
+             "&": a & b, "|": a | b, "*": a * b}[t[1]]
+        return None if v is None else v & 0xffffffff
+    return None
+
+
+def offset_table_rows(F, fn, off):
+    """The distance classes when GetOffsetModifiers is written over a constant table: a loop over a namespace-scope constant
+    array of records selects the first row r with `prefix < r.<end>` (returning from the loop, or remembering the row and
+    leaving the loop), a fallback row covers the rest, and the result is one formula over the selected row's fields.
+    Returns [(below, bits, upper_fn)] in class order, or None when the function is not written this way."""
+    loops = [nd for nd in fn.nodes if nd["k"] == "CXXForRangeStmt"]
+    if len(loops) != 1:
+        return None
+    lp = loops[0]
+    rng = fn.term(lp["range"])
+    tbl = F.vars.get(rng[1]) if rng[0] == "global" else None
+    rows = (tbl or {}).get("value")
+    if not (tbl and tbl.get("const") and isinstance(rows, list) and rows and all(isinstance(r, dict) for r in rows)):
+        return None
+    d = fn.n(lp["loopvar"])["decls"][0]
+    elem = ("var", d["n"], d["d"])
+    body = fn.n(lp["body"])
+    ks = fn.kids(lp["body"]) if body["k"] == "CompoundStmt" else [lp["body"]]
+    ifs = [fn.n(x) for x in ks if fn.n(x)["k"] == "IfStmt"]
+    if len(ifs) != 1 or len(ks) != 1 or ifs[0].get("else") is not None:
+        return None
+    c = fn.term(ifs[0]["cond"])
+    if not (c[0] == "op" and c[1] == "<" and c[2] == off and c[3][0] == "mem" and c[3][1] == elem):
+        return None
+    end_field = c[3][2]
+    then = fn.subtree(ifs[0]["then"])
+    rets_in = [fn.n(x) for x in then if fn.n(x)["k"] == "ReturnStmt"]
+    rets_out = [r for r in returns(fn) if r["id"] not in then]
+    if len(rets_out) != 1:
+        return None
+    sel = None
+    fallback = None
+    if rets_in:
+        # form (a): return the formula from inside the loop; the final return is the fallback class
+        if len(rets_in) != 1:
+            return None
+        formula = fn.term(rets_in[0]["value"])
+        sel = elem
+        tail = fn.term(rets_out[0]["value"])
+    else:
+        # form (b): remember the row and leave the loop; one formula over the remembered row
+        if not any(fn.n(x)["k"] == "BreakStmt" for x in then):
+            return None
+        st = [fn.n(x) for x in then if is_store(fn.n(x))]
+        if len(st) != 1:
+            return None
+        l, r = fn.term(fn.kids(st[0]["id"])[0]), fn.term(fn.kids(st[0]["id"])[1])
+        if l[0] != "var" or r not in (elem, ("un", "&", elem)):
+            return None
+        sel = l
+        formula = fn.term(rets_out[0]["value"])
+        tail = None
+        for nd in fn.nodes:
+            if nd["k"] == "DeclStmt":
+                for d2 in nd.get("decls", []):
+                    if ("var", d2.get("n"), d2.get("d")) == sel and "init" in d2:
+                        it = fn.term(d2["init"])
+                        g = it[2] if it[0] == "un" and it[1] == "&" else it
+                        if g[0] == "global":
+                            fv = F.vars.get(g[1]) or {}
+                            if fv.get("const") and isinstance(fv.get("value"), dict):
+                                fallback = fv["value"]
+        if fallback is None:
+            return None
+    if not (formula[0] == "initlist" and len(formula[1]) == 2):
+        return None
+
+    def row_fns(row, f0):
+        env = {("mem", sel, k): v for k, v in row.items() if isinstance(v, int)}
+        bits = _eval_term(f0[1][0], env)
+        def up(x, e=env, t=f0[1][1]):
+            e2 = dict(e)
+            e2[off] = x
+            return _eval_term(t, e2)
+        return bits, up
+    out = []
+    for row in rows:
+        if not isinstance(row.get(end_field), int):
+            return None
+        b, u = row_fns(row, formula)
+        out.append((row[end_field], b, u))
+    if fallback is not None:
+        b, u = row_fns(fallback, formula)
+        out.append((256, b, u))
+    else:
+        if not (tail[0] == "initlist" and len(tail[1]) == 2):
+            return None
+        out.append((256, _eval_term(tail[1][0], {}), lambda x, t=tail[1][1]: _eval_term(t, {off: x})))
+    return out
+
+
 def offset_table(F, S):
     sp = lz_spec()
     fn = F.fn(HL + "::GetOffsetModifiers", nparams=1)
     off = P(fn, 0)
+    rows = offset_table_rows(F, fn, off)
+    if rows is not None:
+        # table form: the i-th row must be the i-th class of the format; the upper-bits formula is compared with the
+        # format's on every prefix value of the class (two closed formulas over at most 80 values)
+        out = []
+        lo = 0
+        for i, cl in enumerate(sp["classes"]):
+            inst = "%s::GetOffsetModifiers#class-%d" % (HL, i)
+            req = "prefix < %d: %d extra bits, upper bits ((prefix - %d) >> %d) + %d" % (cl["below"], cl["extra_bits"], cl["from"], cl["shift"], cl["base"])
+            if i >= len(rows):
+                out.append(bad("R-LAYOUT", inst, fn.loc(fn.body), fn.qn, req, "class missing"))
+                continue
+            below, bits, up = rows[i]
+            probs = []
+            if below != cl["below"]:
+                probs.append("class boundary %s" % below)
+            if bits != cl["extra_bits"]:
+                probs.append("extra bits %s" % bits)
+            want = (lambda x: cl["base"]) if "const_upper" in cl else (lambda x: ((x - cl["from"]) >> cl["shift"]) + cl["base"])
+            diff = [x for x in range(lo, cl["below"]) if up(x) != want(x)]
+            if diff:
+                probs.append("upper bits differ from the format's for prefix %d (gives %s, format %d)" % (diff[0], up(diff[0]), want(diff[0])))
+            lo = cl["below"]
+            if probs:
+                out.append(bad("R-LAYOUT", inst, fn.loc(fn.body), fn.qn, req, "; ".join(probs)))
+            else:
+                out.append(ok("R-LAYOUT", inst, fn.loc(fn.body), fn.qn, req, "row %d of the constant table, as in the format description" % i))
+        if len(rows) != len(sp["classes"]):
+            out.append(bad("R-LAYOUT", "%s::GetOffsetModifiers#class-count" % HL, fn.loc(fn.body), fn.qn, "the table has the format's %d classes" % len(sp["classes"]), "%d rows" % len(rows)))
+        return out
     classes = []
     for nd in fn.nodes:
         if nd["k"] == "IfStmt":
